@@ -98,6 +98,7 @@ pub fn replay(case: &Value) -> Result<(), String> {
     match case["kind"].as_str().unwrap_or("") {
         "derive" => check_point(f, p, ws).map(|_| ()),
         "public" => check_public(f, p, ws),
+        "builder" => builder_sequence(case["len"].as_u64().unwrap() as usize, case["code"].as_u64().unwrap()).map(|_| ()),
         "monotone" => {
             let ws2 = case["WS2"].as_u64().unwrap();
             let a = impl_derive(f, p, ws)?;
@@ -106,6 +107,88 @@ pub fn replay(case: &Value) -> Result<(), String> {
         }
         k => Err(format!("unknown kind {}", k)),
     }
+}
+
+#[derive(Clone, Copy, Debug)]
+enum BOp {
+    P(u16),
+    Ws(u64),
+    Build(u64),
+    CloneHere,
+}
+
+fn builder_menu() -> Vec<BOp> {
+    let mut menu: Vec<BOp> = vec![];
+    menu.extend([16u16, 40, 64, 1024].iter().map(|&p| BOp::P(p)));
+    menu.extend([64u64, 640, 5000, 5200, 100_000, DEFAULT_WS].iter().map(|&w| BOp::Ws(w)));
+    menu.push(BOp::Build(1000));
+    menu.push(BOp::CloneHere);
+    menu
+}
+
+/// one setter/build/clone sequence from EncoderBuilder::new(); after the last step build(F), F in {10,1000,10000},
+/// must give the RFC derivation for the builder's CURRENT settings (what was set before must not matter)
+fn builder_sequence(len: usize, code: u64) -> Result<u64, String> {
+    let menu = builder_menu();
+    let m = menu.len() as u64;
+    let mut c = code;
+    let mut ops = vec![];
+    for _ in 0..len {
+        ops.push(menu[(c % m) as usize]);
+        c /= m;
+    }
+    let names: Vec<String> = ops.iter().map(|o| format!("{:?}", o)).collect();
+    let r = guarded(|| -> Result<u64, String> {
+        let mut b = EncoderBuilder::new();
+        let (mut p, mut ws) = (1024u16, DEFAULT_WS);
+        for op in &ops {
+            match *op {
+                BOp::P(x) => { b.set_max_packet_size(x); p = x; }
+                BOp::Ws(x) => { b.set_decoder_memory_requirement(x); ws = x; }
+                BOp::Build(f) => { let _ = guarded(|| b.build(&data_pos(f as usize))); }
+                BOp::CloneHere => { b = b.clone(); }
+            }
+        }
+        let mut n = 0u64;
+        for f in [10u64, 1000, 10_000] {
+            let want = match rfcref::derive(f, p as u64, ws) {
+                None => continue,
+                Some(w) => w,
+            };
+            let enc = guarded(|| b.build(&data_pos(f as usize))).map_err(|e| format!("build(F={}) with P={} WS={} panicked: {}", f, p, ws, e))?;
+            let cfg = enc.get_config();
+            let got = (cfg.symbol_size() as u64, cfg.source_blocks() as u64, cfg.sub_blocks() as u64, cfg.symbol_alignment() as u64);
+            n += 1;
+            if got != want || cfg.transfer_length() != f {
+                return Err(format!("builder settings P={} WS={}, F={}: derived (T,Z,N,Al) = {:?}, RFC 4.3 gives {:?}", p, ws, f, got, want));
+            }
+        }
+        Ok(n)
+    });
+    match r {
+        Ok(Ok(n)) => Ok(n),
+        Ok(Err(m)) | Err(m) => Err(format!("EncoderBuilder::new() then {:?}: {}", names, m)),
+    }
+}
+
+fn builder_histories(ctx: &Ctx, st: &Stats) {
+    let depth = if ctx.quick() { 3 } else { 4 };
+    let m = builder_menu().len() as u64;
+    let mut seqs: Vec<(usize, u64)> = vec![];
+    for d in 1..=depth {
+        for code in 0..m.pow(d as u32) {
+            seqs.push((d, code));
+        }
+    }
+    par_for_chunk(seqs.len(), 64, |i| {
+        let (d, code) = seqs[i];
+        match builder_sequence(d, code) {
+            Ok(n) => { st.eval(n); st.count("builder_history_builds", n); }
+            Err(msg) => st.violation(format!("builder:{}:{}", d, code), msg, json!({"kind":"builder","len":d,"code":code})),
+        }
+    });
+    st.set_counter("builder_histories", seqs.len() as u64);
+    st.sample(json!({"kind":"builder","menu":"set_max_packet_size {16,40,64,1024}, set_decoder_memory_requirement {64,640,5000,5200,100000,10MiB}, build, clone","depth":depth,"judged":"after the last step: build(F) for F in {10,1000,10000} = RFC derivation for the current settings"}));
 }
 
 fn al_of(p: u16) -> u64 { if p >= 64 { 8 } else { 1 } }
@@ -238,6 +321,7 @@ pub fn run(ctx: &Ctx) -> i32 {
     }
     pub_cases.sort_unstable();
     pub_cases.dedup();
+    builder_histories(ctx, &st);
     let pub_valid = std::sync::atomic::AtomicU64::new(0);
     par_for(pub_cases.len(), |i| {
         let (f, p, ws) = pub_cases[i];
@@ -254,7 +338,7 @@ pub fn run(ctx: &Ctx) -> i32 {
     }
     finish(ctx, &st, Finish {
         level: "exploration",
-        rule: format!("grid: P in {} values (1..={} complete, 2^k+-{{0,1,2,7,8,9}}, MTU-like and top values{}) x F in {{1,T-1,T,T+1,10T,10T+1,11T,12T+1,1000T+3,56403T+-1,2*56403T+1,56403*255*T+{{-1,0,1}}}} x WS in breakpoints Al*ceil(T/(Al*n))*K'+{{-1,0,1}} for n in {{1..6,16,17,Nmax/2,Nmax-1,Nmax}}, K' in {{10,12,101,1050,56403}}, quotient WS/(Al*x) around 2^32, 0,1,9,10, 10MiB, 2^32, 2^40, 2^64-1; compared with a u128 reference of RFC 6330 4.3 only where it says a valid configuration exists; Z monotone along WS; public API (EncoderBuilder, with_defaults) bound to the hooked derivation and round-tripped on {} points with F<=4096. distinct_nontrivial = points with a valid configuration where all four values were compared.", ps.len(), if ctx.quick() { 300 } else { 2100 }, if ctx.thorough() { ", every 997th above" } else { "" }, pub_cases.len()),
+        rule: format!("grid: P in {} values (1..={} complete, 2^k+-{{0,1,2,7,8,9}}, MTU-like and top values{}) x F in {{1,T-1,T,T+1,10T,10T+1,11T,12T+1,1000T+3,56403T+-1,2*56403T+1,56403*255*T+{{-1,0,1}}}} x WS in breakpoints Al*ceil(T/(Al*n))*K'+{{-1,0,1}} for n in {{1..6,16,17,Nmax/2,Nmax-1,Nmax}}, K' in {{10,12,101,1050,56403}}, quotient WS/(Al*x) around 2^32, 0,1,9,10, 10MiB, 2^32, 2^40, 2^64-1; compared with a u128 reference of RFC 6330 4.3 only where it says a valid configuration exists; Z monotone along WS; public API (EncoderBuilder, with_defaults) bound to the hooked derivation and round-tripped on {} points with F<=4096. EncoderBuilder as a state machine: every sequence of up to 3 (thorough 4) setter / build / clone calls over 4 packet sizes and 6 budgets, the configuration built afterwards must be the derivation for the current settings. distinct_nontrivial = points with a valid configuration where all four values were compared.", ps.len(), if ctx.quick() { 300 } else { 2100 }, if ctx.thorough() { ", every 997th above" } else { "" }, pub_cases.len()),
         exhaustive: false,
         assumptions: vec!["Al = SS = 8 for P >= 64, else 1 (the implementation's choice; RFC leaves Al, SS to the application)".into(), "a configuration is valid iff some K' fits the budget for n = Nmax, Z <= 255 and T >= Al".into(), "F and WS off the breakpoint sets are not enumerated (piecewise constant derivation)".into()],
         extra: Map::new(),
